@@ -113,7 +113,7 @@ def run(ctx):
         t = os.path.join(vlib.BUILD, "C03_mot_f%d.txt" % k)
         tables.append(t)
         graph_replay(ctx, "Future", "Future", "Future_base.cfg", "f%d" % k, rpf,
-                     lambda st, rk=rk: fl.proj(fl.fix_empty(dict(st)), rk),
+                     lambda st, rk=rk, wk=wk: fl.proj(fl.fix_empty(dict(st)), rk, wk),
                      header_fn=lambda i, st0, rk=rk, wk=wk: {"R": rk, "W": wk}, constants=consts,
                      max_paths=300 if ctx.quick else None, tlc_kw={"workers": 4}, env={"VSCHED_MOTABLE": t})
     for k, mix in enumerate(mjobs):
